@@ -342,46 +342,83 @@ def reference(prog: Program, sname: str, cls: str, og: bool, flags: dict):
 START_KEY = {0: "zero_data", 1: "identity_data", None: None}
 
 
-def data_key_patterns(repo: Repo):
-    """Keys of the `data` table of series_computation: (constant keys, suffix patterns for input series)."""
+def data_table(repo: Repo):
+    """The `data` table of series_computation in one normal form, whether its per-input entries are written as a dict
+    comprehension spread into the literal or filled by nested loops after it:
+    -> (table assignment, {constant key: value AST}, [(key f-string, value AST, [(target AST, iterable AST), ...])])."""
     sc = repo.find("algorithm_parsing::series_computation", RULE)
-    tables = [n for n in ast.walk(sc) if isinstance(n, ast.Assign) and norm(n.targets[0]) == "data" and isinstance(n.value, ast.Dict)]
+    tables = [n for n in ast.walk(sc) if isinstance(n, ast.Assign) and isinstance(n.value, ast.Dict) and isinstance(n.targets[0], ast.Name)
+              and any(isinstance(k, ast.Constant) and k.value == "zero_data" for k in n.value.keys if k is not None)]
     if len(tables) != 1:
-        raise AnalysisError(RULE, "series_computation: `data` table not found")
-    consts, patterns = set(), set()
-    for k, v in zip(tables[0].value.keys, tables[0].value.values):
+        raise AnalysisError(RULE, "series_computation: `data` table (with a `zero_data` entry) not found")
+    tab = tables[0]
+    name = tab.targets[0].id
+    consts, dyn = {}, []
+    for k, v in zip(tab.value.keys, tab.value.values):
         if isinstance(k, ast.Constant) and isinstance(k.value, str):
-            consts.add(k.value)
+            consts[k.value] = v
         elif k is None and isinstance(v, ast.DictComp) and isinstance(v.key, ast.JoinedStr):
-            gens = v.generators
-            if not (isinstance(gens[0].iter, ast.Call) and norm(gens[0].iter.func) == "series.items"):
-                raise AnalysisError(RULE, "series_computation: data table comprehension not over series.items()")
-            name_var = norm(gens[0].target.elts[0])
-            extra = {}
-            for g in gens[1:]:
-                if isinstance(g.target, ast.Name) and isinstance(g.iter, (ast.Tuple, ast.List)) and all(
-                        isinstance(e, ast.Constant) and isinstance(e.value, str) for e in g.iter.elts):
-                    extra[g.target.id] = [e.value for e in g.iter.elts]
-                else:
-                    raise AnalysisError(RULE, "series_computation: data table comprehension form not understood")
-            combos = [{}]
-            for var, vals in extra.items():
-                combos = [dict(c, **{var: x}) for c in combos for x in vals]
-            for c in combos:
-                parts, ok_name = "", False
-                for piece in v.key.values:
-                    if isinstance(piece, ast.Constant):
-                        parts += piece.value
-                    elif isinstance(piece, ast.FormattedValue) and norm(piece.value) == name_var and not parts:
-                        ok_name = True
-                    elif isinstance(piece, ast.FormattedValue) and norm(piece.value) in c:
-                        parts += c[norm(piece.value)]
-                    else:
-                        raise AnalysisError(RULE, "series_computation: data key f-string not understood")
-                if ok_name:
-                    patterns.add(parts)
+            dyn.append((v.key, v.value, [(g.target, g.iter) for g in v.generators]))
+            if any(g.ifs for g in v.generators):
+                raise AnalysisError(RULE, "series_computation: filtered data table comprehension not understood")
         elif k is None:
             raise AnalysisError(RULE, "series_computation: data table entry not understood")
+        else:
+            raise AnalysisError(RULE, f"series_computation: data table key `{norm(k)[:40]}` not understood")
+    # entries added by loops: for T1 in I1: [for T2 in I2:] data[f"..."] = V
+    from .core import own_nodes
+    for st in own_nodes(sc):
+        if isinstance(st, ast.Assign) and isinstance(st.targets[0], ast.Subscript) and norm(st.targets[0].value) == name:
+            key = st.targets[0].slice
+            gens, p_, plain = [], getattr(st, "_parent", None), True
+            while p_ is not None and p_ is not sc:
+                if isinstance(p_, ast.For):
+                    gens.insert(0, (p_.target, p_.iter))
+                    if len(p_.body) != 1:
+                        plain = False
+                elif isinstance(p_, (ast.If, ast.While, ast.Try, ast.With)):
+                    plain = False
+                p_ = getattr(p_, "_parent", None)
+            if isinstance(key, ast.Constant) and isinstance(key.value, str) and not gens:
+                consts[key.value] = st.value
+            elif isinstance(key, ast.JoinedStr) and gens and plain:
+                dyn.append((key, st.value, gens))
+            else:
+                raise AnalysisError(RULE, f"series_computation: store `{norm(st.targets[0])[:50]}` into the data table not understood")
+    return tab, consts, dyn
+
+
+def data_key_patterns(repo: Repo):
+    """Keys of the `data` table of series_computation: (constant keys, suffix patterns for input series)."""
+    _tab, cmap, dyn = data_table(repo)
+    consts, patterns = set(cmap), set()
+    for key, _v, gens in dyn:
+        if not (isinstance(gens[0][1], ast.Call) and norm(gens[0][1].func) == "series.items" and isinstance(gens[0][0], ast.Tuple)):
+            raise AnalysisError(RULE, "series_computation: data table entries of the inputs do not iterate series.items()")
+        name_var = norm(gens[0][0].elts[0])
+        extra = {}
+        for tgt, it in gens[1:]:
+            if isinstance(tgt, ast.Name) and isinstance(it, (ast.Tuple, ast.List)) and all(
+                    isinstance(e, ast.Constant) and isinstance(e.value, str) for e in it.elts):
+                extra[tgt.id] = [e.value for e in it.elts]
+            else:
+                raise AnalysisError(RULE, "series_computation: data table comprehension form not understood")
+        combos = [{}]
+        for var, vals in extra.items():
+            combos = [dict(c, **{var: x}) for c in combos for x in vals]
+        for c in combos:
+            parts, ok_name = "", False
+            for piece in key.values:
+                if isinstance(piece, ast.Constant):
+                    parts += piece.value
+                elif isinstance(piece, ast.FormattedValue) and norm(piece.value) == name_var and not parts:
+                    ok_name = True
+                elif isinstance(piece, ast.FormattedValue) and norm(piece.value) in c:
+                    parts += c[norm(piece.value)]
+                else:
+                    raise AnalysisError(RULE, "series_computation: data key f-string not understood")
+            if ok_name:
+                patterns.add(parts)
     return consts, patterns
 
 
@@ -653,8 +690,17 @@ def rule_runtime_support(rep: Report, repo: Repo):
         raise AnalysisError(R, "_safe_divide signature")
     n_, d_ = params
     vals = []
-    trys = [t for t in f.body if isinstance(t, ast.Try)]
-    blocks = [f.body] if not trys else [trys[0].body] + [h.body for h in trys[0].handlers]
+    trys = [i for i, t in enumerate(f.body) if isinstance(t, ast.Try)]
+    if not trys:
+        blocks = [f.body]
+    else:
+        # normal path: the try body, its else, what follows; one more path per handler (the try body raised before binding anything useful)
+        i = trys[0]
+        t = f.body[i]
+        if t.finalbody or len(trys) > 1:
+            raise AnalysisError(R, "_safe_divide: try/finally or several try statements not understood")
+        pre, post = f.body[:i], f.body[i + 1:]
+        blocks = [pre + t.body + t.orelse + post] + [pre + h.body + post for h in t.handlers]
     for blk in blocks:
         for o in _outcomes(blk, None, env={}, expand=False):
             if o.kind == "return":
@@ -991,16 +1037,12 @@ def rule_start_data(rep: Report, repo: Repo, all_programs: bool = True):
     the zeroth order of input A on EVERY block (also where that element is the `zero` sentinel: an unpinned block would be
     computed from the term's definition instead).  Decided on the resolved `data` table of series_computation."""
     from .core import own_nodes
-    from .resolve import env_at, resolved
+    from .resolve import clone, env_at, resolved
     from .sem import Scope, canon, inline
     R = "E9.start_data"
     sc = repo.find("algorithm_parsing::series_computation", R)
     loc = lambda n: repo.loc("algorithm_parsing", n)
-    tabs = [n for n in own_nodes(sc) if isinstance(n, ast.Assign) and isinstance(n.value, ast.Dict)
-            and any(isinstance(k, ast.Constant) and k.value == "zero_data" for k in n.value.keys if k is not None)]
-    if len(tabs) != 1:
-        raise AnalysisError(R, "table of start data (with a `zero_data` entry) not found")
-    tab = tabs[0]
+    tab, named, dyn_entries = data_table(repo)
     env = env_at(tab, sc, opaque=("n_infinite", "shape"))
     scope = Scope(repo.trees["algorithm_parsing"], tab)
     ALL = ("[(_v0, _v1) for _v0 in range(shape[0]) for _v1 in range(shape[1])]",)
@@ -1010,7 +1052,22 @@ def rule_start_data(rep: Report, repo: Repo, all_programs: bool = True):
     def pins(e, what):
         """{block + zeroth_order: VALUE for block in BLOCKS} without a filter -> (blocks text, value text with the key as K) or None"""
         e = canon(resolved(inline(resolved(e, env), scope), env))  # closure variables of an inlined helper are resolved too
-        if not (isinstance(e, ast.DictComp) and len(e.generators) == 1):
+        if not isinstance(e, ast.DictComp):
+            return None
+        k = e.key
+        if isinstance(k, ast.BinOp) and isinstance(k.op, ast.Add) and isinstance(k.left, ast.Tuple) and norm(k.right) == ZO:
+            lead = k.left.elts
+        elif isinstance(k, ast.Tuple) and k.elts and isinstance(k.elts[-1], ast.Starred) and norm(k.elts[-1].value) == ZO:
+            lead = k.elts[:-1]
+        else:
+            lead = None
+        if lead is not None and len(lead) == 2 and not any(isinstance(x, ast.Starred) for x in lead):
+            # the block is written out in the key: {(i, j) + zeroth_order: V for i in ... for j in ...}
+            blocks = canon(ast.ListComp(elt=ast.Tuple(elts=[clone(x) for x in lead], ctx=ast.Load()),
+                                        generators=[ast.comprehension(target=clone(g.target), iter=clone(g.iter), ifs=[], is_async=0) for g in e.generators]))
+            key = norm(k)
+            return norm(blocks), norm(e.value).replace(key, "K"), [norm(i).replace(key, "K") for g in e.generators for i in g.ifs]
+        if len(e.generators) != 1:
             return None
         g = e.generators[0]
         b = norm(g.target)
@@ -1018,8 +1075,6 @@ def rule_start_data(rep: Report, repo: Repo, all_programs: bool = True):
         if key not in (f"{b} + {ZO}", f"({b}[0], {b}[1], *{ZO})", f"(*{b}, *{ZO})"):
             return None
         return norm(g.iter), norm(e.value).replace(key, "K"), [norm(i).replace(key, "K") for i in g.ifs]
-    d = tab.value
-    named = {k.value: v for k, v in zip(d.keys, d.values) if isinstance(k, ast.Constant)}
     z = pins(named.get("zero_data", ast.Constant(None)), "zero")
     i1 = pins(named.get("identity_data", ast.Constant(None)), "one")
     if z is None or i1 is None:
@@ -1027,16 +1082,15 @@ def rule_start_data(rep: Report, repo: Repo, all_programs: bool = True):
     ok = z[0] in ALL and z[1] == "zero" and not z[2] and i1[0] in DIAG and i1[1] == "one" and not i1[2]
     rep.check(ok, R, "algorithm_parsing::series_computation start = 0 pins zero on every block, start = 1 pins the identity on diagonal blocks, at order zero",
               f"zero_data over {z[0][:60]} -> {z[1]} if {z[2]}; identity_data over {i1[0][:50]} -> {i1[1]} if {i1[2]}", loc(tab))
-    spreads = [v for k, v in zip(d.keys, d.values) if k is None]
-    dyn = [v for v in spreads if isinstance(v, ast.DictComp)]
-    if len(dyn) != 1:
-        raise AnalysisError(R, "the `<name>_data` entries of the inputs are not one dictionary comprehension")
-    dc = dyn[0]
-    src = [g for g in dc.generators if isinstance(g.iter, ast.Call) and norm(g.iter) == "series.items()" and isinstance(g.target, ast.Tuple)
-           and len(g.target.elts) == 2]
+    if len(dyn_entries) != 1:
+        raise AnalysisError(R, "the `<name>_data` entries of the inputs are not one comprehension / one loop nest")
+    dkey, dval, dgens = dyn_entries[0]
+    src = [(t_, i_) for t_, i_ in dgens if isinstance(i_, ast.Call) and norm(i_) == "series.items()" and isinstance(t_, ast.Tuple) and len(t_.elts) == 2]
     if len(src) != 1:
         raise AnalysisError(R, "the input start data does not iterate `series.items()`")
-    ser = norm(src[0].target.elts[1])
+    ser = norm(src[0][0].elts[1])
+    dc = type("_E", (), {"value": dval})()
+    dc_node = dval
     p = pins(dc.value, "series")
     if p is None:
         raise AnalysisError(R, f"input start data `{norm(dc.value)[:60]}` is not {{block + zeroth_order: <series>[...] for block in all blocks}}")
@@ -1045,9 +1099,9 @@ def rule_start_data(rep: Report, repo: Repo, all_programs: bool = True):
         # the shipped algorithms only start H_tilde from H_0, whose definition gives `zero` at order zero anyway: unpinned absent
         # blocks do not change their values (they do for general programs: C09 runs this rule with all_programs=True)
         rep.ok(R, 'algorithm_parsing::series_computation start = "A" pins every present block of A at order zero (sufficient for the shipped algorithms)',
-               f"filter {p[2]}", loc(dc))
+               f"filter {p[2]}", loc(dc_node))
         return
     ok = p[0] in ALL and p[1] == f"{ser}[K]" and not p[2]
     rep.check(ok, R, 'algorithm_parsing::series_computation start = "A" pins the zeroth order of A on every block (absent blocks included)',
               f"over {p[0][:60]} -> {p[1]}" + (f" filtered by {p[2]}: blocks that fail the filter are not pinned and would be computed from the "
-                                              "term's definition at order zero" if p[2] else ""), loc(dc))
+                                              "term's definition at order zero" if p[2] else ""), loc(dc_node))
